@@ -27,9 +27,12 @@ VARIABLES stored, upd, sched, cfgv
 
 mcvars == <<vars, stored, upd, sched, cfgv>>
 View == <<svars, hvars, stored, upd, IF GenMode /\ GenFail THEN Len(sched) ELSE 0>>
+\* transition cover: one BFS path per distinct (state, call that led to it), so that calls which lead to an
+\* already known state (no-op calls, self-transfers, alternative ways into a state) get a schedule too
+ViewEv == <<View, ev>>
 
 Users == Addr
-MsgOf(kind) == IF kind = "none" THEN <<>> ELSE <<[k |-> "msg", tag |-> kind, a |-> "", b |-> "", amt |-> 0]>>
+MsgOf(kind) == IF kind = "none" THEN <<>> ELSE <<[k |-> "msg", tag |-> kind, a |-> "", b |-> "", amt |-> 0, harmless |-> kind \in {"sink", "sink2", "bank"}]>>
 FailingKind(kind) == kind \in {"bankbig", "reexec", "reclose", "revote"}   \* dispatch of these always fails
 
 \* what the queries report for a stored proposal (Proposal::current_status)
